@@ -1,7 +1,8 @@
 #!/usr/bin/env python3
 """C01 — remora linear-algebra expressions evaluate to their documented element-wise meaning.
 
-Pieces: proofs (Properties_C01.v) + structural tie of the rewrite-rule table (tools/c01_rules.py) +
+Pieces: proofs (Properties_C01.v) + tie of the rewrite-rule table (tools/c01_rules.py: set of specialisations == arms of
+C01Opt.v, and every rule BODY translated from the header builds the same term as the extracted C01Opt.v function) +
 correspondence: generated expression programs (tools/c01_gen.py) are executed by (a) the extracted Coq
 interpreter over Z, (b) an independent Python evaluator of the documented meaning (the spec monitor)
 and (c) freshly compiled C++ translation units (value types long/double, default kernels and
@@ -612,6 +613,27 @@ def main():
         ck.notes["rule_table"] = "tools/c01_rules.py not present"
     model = extract_model(PID, "C01Extract.v", "c01_driver.ml")
     os.makedirs(TMP, exist_ok=True)
+    # second tie of the rewrite table: the BODY of every specialisation (typedefs + create), translated from the header and
+    # interpreted on instances of every rule (both orientations, non-square, pairwise different indices), must build the
+    # same term as the extracted C01Opt.v functions (driver command O)
+    try:
+        rb = c01_rules.compare_bodies(REPO, model, TMP, seed=ck.seed, per_rule=30 if ck.tier == "thorough" else 10)
+        nmis = len(rb["mismatches"])
+        first = next((m for m in rb["mismatches"] if m), None)
+        ck.oblige("rule bodies: create() of every specialisation of expression_optimizers.hpp, translated and run on %d instances of %d rules, builds the term the extracted C01Opt.v builds" % (rb["instances"], rb["rules"]),
+                  rb["ok"], "mismatching instances: %d%s; untranslatable: %s; rules without instance: %s" % (
+                      nmis, (" first: %s on %s: C++ body gives %s, model gives %s" % (first["rule"], first["instance"], first["translated_from_cxx"], first["extracted_model"])) if first else "",
+                      rb["untranslatable"][:3], rb["not_exercised"][:5]))
+        seen = set()
+        for mm in rb["mismatches"]:
+            if mm and mm["rule"] not in seen:
+                seen.add(mm["rule"])
+                ck.violation("rule-body:" + mm["rule"], mm, "rewrite rule %s: the body in the header builds %s for %s, the proved model rule builds %s" % (
+                    mm["rule"], mm["translated_from_cxx"], mm["instance"], mm["extracted_model"]), no_input=True)
+        ck.notes["rule_bodies"] = {k: rb[k] for k in ("rules", "instances", "skipped_precondition", "orientation_index_functions") if k in rb}
+        ck.notes["rule_bodies"]["least_exercised_rule_instances"] = min(rb.get("fired", {"-": 0}).values())
+    except Exception as ex:        # the translator itself must not take the check down silently
+        ck.oblige("rule bodies: translation of expression_optimizers.hpp", False, "%s: %s" % (type(ex).__name__, ex))
     nev = 0; samples = []; stats = {}
     if ck.replay and ck.replay.endswith(".txt"):      # a case file of the sparse stream
         nev += SP.replay(ck, ck.replay)
@@ -659,6 +681,16 @@ def main():
         prog = proxy_shard(ck, random.Random(ck.seed * 7919 + 1009 * i + 17), "proxyshard%d" % i, vt, pinfo)
         if prog is not None:
             shards.append((prog, [vt])); stats["proxy-layer statements"] = stats.get("proxy-layer statements", 0) + len(prog.stmts) - prog.quiet
+    # do the excluded strata still have no compiling member?  (information only: a stratum that starts to compile should
+    # be taken out of EXCLUDED_STRATA)
+    try:
+        plx = G.ProxyLayer(random.Random(ck.seed + 5)); initx = plx.init_statements()
+        exs = sorted(set((p, f, tr) for (p, f) in G.EXCLUDED_STRATA for tr in (False, True)))
+        px = Program(plx.decls, plx.orient, initx + plx.settle(initx, [plx.draw(x, core=True) for x in exs]), "proxyexcluded", quiet=len(initx))
+        rej = rejected_statements(px, "long") or []
+        pinfo["excluded_strata_that_now_compile"] = ["%s(%s%s)" % (x[0], "trans " if x[2] else "", x[1]) for k, x in enumerate(exs) if k + px.quiet not in rej]
+    except Exception as ex:
+        pinfo["excluded_strata_that_now_compile"] = "not probed: %s" % ex
     want = set("%s(%s%s)" % (p, "trans " if tr else "", f) for (p, f, tr) in G.ProxyLayer(random.Random(0)).strata())
     ck.oblige("proxy layer: every stratum (proxy x matrix form x orientation) outside the documented exclusions is compiled and compared (%d strata)" % len(want),
               want <= set(pinfo["strata"]), "missing: %s" % sorted(want - set(pinfo["strata"]))[:8])
@@ -695,6 +727,9 @@ def main():
     ck.cov["rule"] = ("random well-typed remora statement sequences (expression depth <= 5, container sizes 0..5 incl. 0x3, 1x0, 1x1, non-square, "
                       "row/column-major), every assignment form, deliberate aliasing patterns; each statement executed by compiled C++ (2 value types x 2 back-ends), "
                       "by the extracted Coq interpreter and by the reference evaluator; every container printed after every statement; non-trivial = assignment or reduction statements (element sets excluded)")
+    ck.cov["rule"] += ("; proxy layer: %d strata (every proxy subrange/rows/columns/row/column/diag/trans x every matrix form x plain|trans(form)), one statement per stratum and shard, "
+                       "element-wise wrappers, nested proxies, non-square operands, off-diagonal / non-square / empty / single-line / full ranges, = += -= *= plain and noalias, row- and column-major targets"
+                       % len(pinfo["strata"]))
     ck.cov["rule"] += ("; sparse stream: %d command sequences on compressed_vector / compressed_matrix (storage operations, assignment kernels with 6 functors, "
                        "operator forms plain/noalias x = += -= *=, 9 shapes of sparse expressions, dense and compressed targets, both orientations, sizes 0..12), "
                        "each executed by harness/c01_sparse.cpp and by the extracted C01SparseExec.run_cmd, values + capacities + stored index sequences compared exactly, "
